@@ -14,8 +14,9 @@ import (
 
 func genC07(t *rapid.T, tier string) PairCase {
 	return genPair(t, tier, core.GenOpts{
-		Caches: []string{"none", "none", "big", "arc4"},
-		Vals:   []string{core.VInt, core.VString},
+		Caches:   []string{"none", "none", "big", "arc4"},
+		Vals:     []string{core.VInt, core.VString},
+		BigOneIn: 12,
 	}, true)
 }
 
@@ -38,7 +39,9 @@ func diffLinks(p *pair) (linkDiff, error) {
 	return ld, err
 }
 
-func nodeSet(w *core.World, sr *core.SavedRoot) (map[string]*ref.Node, error) { return w.Reachable(sr.Root) }
+func nodeSet(w *core.World, sr *core.SavedRoot) (map[string]*ref.Node, error) {
+	return w.Reachable(sr.Root)
+}
 
 func runC07(c PairCase, o *run.Obs) error {
 	p, ok := buildPair(c, o)
